@@ -143,6 +143,42 @@ pub fn gen(rng: &mut Rng, thorough: bool, out: &mut Sink) {
             }
         }
     }
+    // a step that can empty the text followed by steps that add to it: every step runs, in order
+    let shrinkers = |c: char| -> Vec<Normalization> {
+        vec![
+            Normalization::Strip { character: c, left: u32::MAX, right: u32::MAX },
+            Normalization::Strip { character: c, left: 2, right: 0 },
+            Normalization::Replace { pattern: c.to_string().as_str().into(), replacement: "".into() },
+            Normalization::Replace { pattern: c.into(), replacement: "".into() },
+        ]
+    };
+    let growers: Vec<Normalization> = vec![
+        Normalization::Prepend { prepend: "▁".into() },
+        Normalization::Append { append: "é".into() },
+        Normalization::Extend { character: '_', left: 1, right: 1, pad: true },
+        Normalization::Extend { character: ' ', left: 0, right: 2, pad: false },
+        Normalization::Conditional { condition: NormalizationCondition::StartOfText, normalization: Box::new(Normalization::Prepend { prepend: "▁".into() }) },
+        Normalization::Collapse { character: ' ' },
+        Normalization::NMT,
+    ];
+    for c in [' ', 'é', '▁'] {
+        for sh in shrinkers(c) {
+            for g in &growers {
+                for g2 in &growers[..3] {
+                    for k in 0..4 {
+                        let mut text: String = std::iter::repeat(c).take(k).collect();
+                        for (start, to_end) in [(0, true), (3, false)] {
+                            out.push(norm_line(&[sh.clone(), g.clone()], start, to_end, &text));
+                            out.push(norm_line(&[sh.clone(), g.clone(), g2.clone()], start, to_end, &text));
+                        }
+                        text.push('a');
+                        out.push(norm_line(&[sh.clone(), g.clone()], 0, true, &text));
+                        out.count("shrink_then_grow");
+                    }
+                }
+            }
+        }
+    }
     // sequences of up to 6 steps, conditionals, positions
     let n = if thorough { 80000 } else { 8000 };
     for _ in 0..n {
